@@ -124,9 +124,16 @@ def check(ctx):
 def _symbol_reads(fn, owner):
     """names N in `<owner>.symbols.N` inside a function."""
     out = []
+    is_tab = lambda e: isinstance(e, ast.Attribute) and e.attr == "symbols" and isinstance(e.value, ast.Name) and e.value.id == owner
+    # locals that stand for the symbol table (`sym = self.symbols`), bound once in the function
+    stores = {}
     for n in ast.walk(fn):
-        if isinstance(n, ast.Attribute) and isinstance(n.value, ast.Attribute) and n.value.attr == "symbols" \
-                and isinstance(n.value.value, ast.Name) and n.value.value.id == owner:
+        if isinstance(n, ast.Name) and isinstance(n.ctx, (ast.Store, ast.Del)):
+            stores[n.id] = stores.get(n.id, 0) + 1
+    alias = {st.targets[0].id for st in ast.walk(fn) if isinstance(st, ast.Assign) and len(st.targets) == 1 and isinstance(st.targets[0], ast.Name)
+             and is_tab(st.value) and stores.get(st.targets[0].id) == 1}
+    for n in ast.walk(fn):
+        if isinstance(n, ast.Attribute) and isinstance(n.ctx, ast.Load) and (is_tab(n.value) or (isinstance(n.value, ast.Name) and n.value.id in alias)):
             out.append((n.attr, n.lineno))
     return out
 
@@ -445,15 +452,26 @@ def _r5(ctx, pkg):
                                   f"the {kind} loop covers {J.show(complist)}", expected=J.show(complist), found=J.show(comps) if comps else "unset")
                         # body: `realtype key = u_data->key;` / `realtype key = value;`
                         tv = it[1]
-                        outs = [x[1] for x in it[3] if x[0] == "out"]
-                        txt = "".join(x[1] for x in it[3] if x[0] == "text")
-                        if kind == "params":
-                            good = len(outs) == 2 and outs[0] == outs[1] == tv[1][0] and re.search(r"(realtype|double)\s+=\s+\w+->;", re.sub(r"\s+", " ", txt).replace("  ", " ")) is not None
+                        # (key, value) of the enumeration: the two loop targets, or item 0 / 1 of a single target
+                        if tv[0] in ("tuple", "list") and len(tv[1]) == 2:
+                            kx, vx = {tv[1][0]}, {tv[1][1]}
                         else:
-                            good = len(outs) == 2 and outs[0] == tv[1][0] and outs[1] == tv[1][1] and re.search(r"(realtype|double)\s+=\s*;", re.sub(r"\s+", " ", txt)) is not None
-                        ctx.check(good, "R5", f"{key}:{kind}-declaration", (rel, it[5]),
-                                  "each symbol is declared once as a local of this function from the enumeration's own key" + ("" if kind == "params" else " and value"),
-                                  found=f"{[J.show(o) for o in outs]} in {txt.strip()[:60]!r}")
+                            kx, vx = {("item", tv, ("const", 0))}, {("item", tv, ("const", 1))}
+                        body = J.inline_sets(it[3])          # `{% set name = key %}` / macro parameters read as what they stand for
+                        outs = [x[1] for x in body if x[0] == "out"]
+                        txt = re.sub(r"\s+", " ", "".join(x[1] for x in body if x[0] == "text"))
+                        shape = len(outs) == 2 and not any(x[0] in ("for", "if") for x in body) and \
+                            re.search(r"(realtype|double)\s+=\s+\w+->;" if kind == "params" else r"(realtype|double)\s+=\s*;", txt) is not None
+                        if kind == "params":
+                            good = shape and outs[0] == outs[1] and outs[0] in kx
+                        else:
+                            good = shape and outs[0] in kx and outs[1] in vx
+                        dkey = f"{key}:{kind}-declaration"
+                        dmsg = "each symbol is declared once as a local of this function from the enumeration's own key" + ("" if kind == "params" else " and value")
+                        if good or shape:
+                            ctx.check(good, "R5", dkey, (rel, it[5]), dmsg, found=f"{[J.show(o) for o in outs]} in {txt.strip()[:60]!r}")
+                        else:
+                            ctx.unrec("R5", dkey, (rel, it[5]), f"the body of the {kind} loop is not one declaration `type <key> = ...;`: {[J.show(o) for o in outs]} in {txt.strip()[:60]!r}")
     ctx.floor("R5", "expression-pasting functions", n, 14)
     # NaunetData fields and constants from the same enumerations
     for rel, kind, pat in ((DATA_H, "params", r"double"), (CONST_H, "constants", r"extern"), (CONST_C, "constants", r"double")):
@@ -501,6 +519,11 @@ def _r5(ctx, pkg):
             a = simp(up[0].value) if up[0].value else None
             ok = simp(l1.iter) == ("param", "complist") and a in (g, ("meth", g, "items", (), ()))
             st = up
+    if not ok and not st:
+        # the merge as ONE expression: dict / OrderedDict over the chained items of every component's mapping, or a dict
+        # comprehension with the two loops as its generators
+        rets = [simp(f.value) for f in fl.facts if f.kind == "return" and f.value is not None]
+        ok = len(rets) == 1 and _merged_expression(rets[0])
     brk = [f for f in fl.facts if f.kind in ("break", "continue")]
     ctx.check(ok and not brk, "R5", "_collect_variable_items:every component", (UTIL, fn.lineno),
               "every item of every component's params/deriveds/constants is merged (keyed by symbol), unconditionally",
@@ -528,6 +551,39 @@ def _r5(ctx, pkg):
                     good = len(pairs) >= 1 and len(kind_tests) >= 1 and len(tests) == len(kind_tests) and src
         ctx.check(good, "R5", f"Component.{prop}", ("naunet/component.py", f.lineno if f else 0),
                   f"Component.{prop} maps symbol -> value for the symbols of kind `{kind}`")
+
+
+def _merged_expression(v) -> bool:
+    """is `v` (the items of) a dictionary that merges, in order and unfiltered, `getattr(comp, var_type)` of EVERY comp in
+    `complist`?   dict(chain.from_iterable(getattr(c, var_type).items() for c in complist)),  chain(*[..]),
+    {k: x for c in complist for k, x in getattr(c, var_type).items()}  -- with or without the final .items()"""
+    COMPS, VT = ("param", "complist"), ("param", "var_type")
+    if v[0] == "meth" and v[2] == "items" and not v[3] and not v[4]:
+        v = v[1]
+
+    def mapping_of(x, bv):
+        """x is getattr(bv, var_type)[.items()]"""
+        if x[0] == "meth" and x[2] == "items" and not x[3] and not x[4]:
+            x = x[1]
+        return x == ("call", ("global", "getattr"), (bv, VT), ())
+    is_chain = lambda f: f == ("global", "chain") or f == ("attr", ("global", "itertools"), "chain")
+    if v[0] == "call" and (v[1] in (("global", "dict"), ("global", "OrderedDict")) or v[1] == ("attr", ("global", "collections"), "OrderedDict")) \
+            and len(v[2]) == 1 and not v[3]:
+        x = v[2][0]
+        g = None
+        if x[0] == "meth" and is_chain(x[1]) and x[2] == "from_iterable" and len(x[3]) == 1 and not x[4]:
+            g = x[3][0]
+        elif x[0] == "call" and is_chain(x[1]) and len(x[2]) == 1 and x[2][0][0] == "star" and not x[3]:
+            g = x[2][0][1]
+        if g is not None and g[0] == "comp" and g[1] in ("gen", "list") and len(g[3]) == 1:
+            tg, it, ifs = g[3][0]
+            return tg is not None and tg[0] == "bv" and it == COMPS and not ifs and mapping_of(g[2], tg)
+        return False
+    if v[0] == "comp" and v[1] == "dict" and len(v[3]) == 2:
+        (t1, i1, f1), (t2, i2, f2) = v[3]
+        return t1 is not None and t1[0] == "bv" and i1 == COMPS and not f1 and not f2 and i2[0] == "meth" and i2[2] == "items" and mapping_of(i2, t1) \
+            and t2 is not None and t2[0] == "tuple" and len(t2[1]) == 2 and v[2] == ("tuple", tuple(t2[1]))
+    return False
 
 
 # ------------------------------------------------------------------ R6
@@ -650,10 +706,23 @@ MUTANTS = [
     {"name": "physics-definition-removed", "file": PHYS_C, "old": "double GetCharactWavelength(", "new": "double GetCharacteristicWavelength(", "rules": ["R2"]},
     {"name": "fex-derived-loop-over-params-list", "file": FEX, "old": "    {% set components = network.reactions + network.grains + network.heating + network.cooling -%}\n    {% for key, value in components | collect_variable_items(\"deriveds\") -%}\n        realtype {{ key }} = {{ value }};\n    {% endfor %}\n\n#if (NHEATPROCS || NCOOLPROCS)\n    if (mu < 0) mu = GetMu(y);",
      "new": "    {% set components = network.reactions + network.grains -%}\n    {% for key, value in components | collect_variable_items(\"deriveds\") -%}\n        realtype {{ key }} = {{ value }};\n    {% endfor %}\n\n#if (NHEATPROCS || NCOOLPROCS)\n    if (mu < 0) mu = GetMu(y);", "rules": ["R5"]},
+    {"name": "collect-chain-skips-first-component", "file": UTIL, "old": '    variables = OrderedDict()\n    for comp in complist:\n        var_dict = getattr(comp, var_type)\n        for key, value in var_dict.items():\n            variables[key] = value\n    return variables.items()\n', "new": "    import itertools\n    merged = OrderedDict(itertools.chain.from_iterable(getattr(comp, var_type).items() for comp in complist[1:]))\n    return merged.items()\n", "rules": ["R5"]},
+    {"name": "collect-comprehension-filtered", "file": UTIL, "old": '    variables = OrderedDict()\n    for comp in complist:\n        var_dict = getattr(comp, var_type)\n        for key, value in var_dict.items():\n            variables[key] = value\n    return variables.items()\n', "new": "    return {key: value for comp in complist if comp for key, value in getattr(comp, var_type).items()}.items()\n", "rules": ["R5"]},
+    {"name": "register-table-row-dropped", "edits": [
+        {"file": RR, "old": '        self.register("photon_desorption_option", (f"opt_uvd{group}", 1.0, vt.param))\n        self.register("H2_desorption_option", (f"opt_h2d{group}", 1.0, vt.param))\n', "new": '        for name, stem, default in self._switches:\n            self.register(name, (f"{stem}{group}", default, vt.param))\n'},
+        {"file": RR, "old": '    model = "rr07"\n', "new": '    model = "rr07"\n    _switches = (("photon_desorption_option", "opt_uvd", 1.0),)\n'}], "rules": ["R1"]},
 ]
 BENIGN = [
     {"name": "component-list-variable-renamed", "file": RATES, "old": "components", "new": "providers", "count": 12},
     {"name": "component-list-inlined", "file": RATES, "old": "    {% set components = network.reactions + network.grains -%}\n    {% for key, _ in components | collect_variable_items(\"params\") -%}", "new": "    {% for key, _ in (network.reactions + network.grains) | collect_variable_items(\"params\") -%}"},
     {"name": "leeds-register-in-both-arms", "file": "naunet/reactions/leedsreaction.py", "old": '        self.register("radiation_field", ("G0", 1.0, vt.param))\n', "new": '        if self.rtype == 4:\n            self.register("radiation_field", ("G0", 1.0, vt.param))\n        else:\n            self.register("radiation_field", ("G0", 1.0, vt.param))\n'},
     {"name": "unrelated-registers-reordered", "file": HH, "old": '        self.register("habing_field_photon_number", ("habing", 1e8, vt.constant))\n        self.register("cosmic_ray_induced_photon_number", ("crphot", 1e4, vt.constant))\n', "new": '        self.register("cosmic_ray_induced_photon_number", ("crphot", 1e4, vt.constant))\n        self.register("habing_field_photon_number", ("habing", 1e8, vt.constant))\n'},
+    {"name": "collect-as-chained-items", "file": UTIL, "old": '    variables = OrderedDict()\n    for comp in complist:\n        var_dict = getattr(comp, var_type)\n        for key, value in var_dict.items():\n            variables[key] = value\n    return variables.items()\n', "new": "    import itertools\n    per_component = (getattr(comp, var_type).items() for comp in complist)\n    merged = OrderedDict(itertools.chain.from_iterable(per_component))\n    return merged.items()\n"},
+    {"name": "collect-as-dict-comprehension", "file": UTIL, "old": '    variables = OrderedDict()\n    for comp in complist:\n        var_dict = getattr(comp, var_type)\n        for key, value in var_dict.items():\n            variables[key] = value\n    return variables.items()\n', "new": "    return {key: value for comp in complist for key, value in getattr(comp, var_type).items()}.items()\n"},
+    {"name": "registrations-from-class-level-table", "edits": [
+        {"file": RR, "old": '        self.register("photon_desorption_option", (f"opt_uvd{group}", 1.0, vt.param))\n        self.register("H2_desorption_option", (f"opt_h2d{group}", 1.0, vt.param))\n', "new": '        for name, stem, default in self._switches:\n            self.register(name, (f"{stem}{group}", default, vt.param))\n'},
+        {"file": RR, "old": '    model = "rr07"\n', "new": '    model = "rr07"\n    _switches = (("photon_desorption_option", "opt_uvd", 1.0), ("H2_desorption_option", "opt_h2d", 1.0))\n'}]},
+    {"name": "registrations-through-helper-handed-a-dict-table", "edits": [
+        {"file": RR, "old": '        self.register("photon_desorption_option", (f"opt_uvd{group}", 1.0, vt.param))\n        self.register("H2_desorption_option", (f"opt_h2d{group}", 1.0, vt.param))\n', "new": '        self._register_rows(self._switches, group, vt.param)\n'},
+        {"file": RR, "old": '    model = "rr07"\n', "new": '    model = "rr07"\n    _switches = {"photon_desorption_option": ("opt_uvd", 1.0), "H2_desorption_option": ("opt_h2d", 1.0)}\n\n    def _register_rows(self, rows, suffix, kind):\n        for name, (stem, default) in rows.items():\n            self.register(name, (f"{stem}{suffix}", default, kind))\n'}]},
 ]
